@@ -15,6 +15,7 @@ import (
 	"github.com/cloudflare/pint/internal/checks"
 	"github.com/cloudflare/pint/internal/config"
 	"github.com/cloudflare/pint/internal/parser"
+	"github.com/cloudflare/pint/internal/promapi"
 	"github.com/cloudflare/pint/verifharness/explore"
 	"github.com/cloudflare/pint/verifharness/lib/pipeline"
 	"github.com/cloudflare/pint/verifharness/lib/promfake"
@@ -105,9 +106,9 @@ var exprs = []string{
 
 // documented exemption by query shape: a metric wrapped in `... or vector(N)` is not checked
 var fallbackExempt = map[string]string{
-	`sum(m) / on() (sum(n) or vector(1))`:               "n",
-	`m * on() group_left() (sum(n) or vector(1))`:       "n",
-	`sum(n) / on() (sum(m{l="w"}) or vector(1))`:        "m",
+	`sum(m) / on() (sum(n) or vector(1))`:         "n",
+	`m * on() group_left() (sum(n) or vector(1))`: "n",
+	`sum(n) / on() (sum(m{l="w"}) or vector(1))`:  "m",
 }
 
 func body(c *explore.Chooser) *explore.Case {
@@ -177,8 +178,8 @@ func body(c *explore.Chooser) *explore.Case {
 		return nil
 	})
 	type prob struct {
-		sev  checks.Severity
-		text string
+		sev      checks.Severity
+		text     string
 		from, to int
 	}
 	var probs []prob
@@ -254,15 +255,103 @@ func body(c *explore.Chooser) *explore.Case {
 	return cs
 }
 
+// watch: one long-lived client (as `pint watch` keeps it) lints the same rule repeatedly while the database
+// changes: the metric is absent at first and appears before the second or third iteration. The query cache runs on
+// a clock owned by the harness (iterations every 1, 4 or 7 minutes, garbage collection every 2 minutes as the
+// group's cleaner does). Once the metric has been there for longer than any instant-query cache lifetime (5m TTL +
+// 2m collection interval; 10 minutes are required here), clause (i) applies again: nothing may be reported about a
+// selector that currently returns series. Only the appearing direction is judged: range-query slices are cached
+// under keys that contain wall-clock timestamps, which do not move in this harness.
+func watch(c *explore.Chooser) *explore.Case {
+	wexprs := []string{`m`, `m{l="v"}`, `sum(m)`, `m{l="v"} / n`, `rate(m{l="v"}[5m])`}
+	ei := c.Free(len(wexprs), "expr")
+	step := []time.Duration{time.Minute, 4 * time.Minute, 7 * time.Minute}[c.Free(3, "iteration-interval")]
+	flipAt := 1 + c.Free(2, "appears-before-iteration")
+	const iterations = 14
+	mk := func(pm string) promqlsim.DB {
+		return promqlsim.DB{
+			series(labels.FromStrings("__name__", "m", "l", "v"), pm),
+			series(labels.FromStrings("__name__", "n", "l", "v"), "always"),
+			series(labels.FromStrings("__name__", "up", "job", "prometheus"), "always"),
+		}
+	}
+	rules := fmt.Sprintf("groups:\n- name: g\n  rules:\n  - alert: A\n    expr: %s\n    for: 5m\n", wexprs[ei])
+	entries, crash := pipeline.Parse("rules.yml", []byte(rules), true, parser.PrometheusSchema, model.UTF8Validation)
+	if crash != nil {
+		panic(crash.Value)
+	}
+	input := map[string]any{"expr": wexprs[ei], "iteration_interval": step.String(), "metric_appears_before_iteration": flipAt, "iterations": iterations}
+	cs := &explore.Case{Input: input, Key: fmt.Sprint(input)}
+	gen := pipeline.Generator(cfg)
+	defer gen.Stop()
+	fake := time.Now()
+	var lastGC time.Time = fake
+	for _, fg := range gen.Servers() {
+		promapi.VerifFailoverSetClock(fg, func() time.Time { return fake })
+	}
+	var appeared time.Time
+	judged := 0
+	for it := 0; it < iterations; it++ {
+		if it > 0 {
+			// time passes; the cleaner runs every two minutes
+			target := fake.Add(step)
+			for fake.Before(target) {
+				next := lastGC.Add(2 * time.Minute)
+				if next.After(target) {
+					fake = target
+					break
+				}
+				fake, lastGC = next, next
+				for _, fg := range gen.Servers() {
+					promapi.VerifFailoverGC(fg)
+				}
+			}
+		}
+		if it < flipAt {
+			srv.SetDB(mk("never"))
+		} else {
+			if appeared.IsZero() {
+				appeared = fake
+			}
+			srv.SetDB(mk("always"))
+		}
+		reports, crash := pipeline.Lint(context.Background(), config.WatchCommand, cfg, gen, entries)
+		if crash != nil {
+			cs.Violate("panic:"+crash.Site, crash.Value, input)
+			return cs
+		}
+		if appeared.IsZero() || fake.Sub(appeared) < 10*time.Minute {
+			continue
+		}
+		judged++
+		for _, r := range reports {
+			if r.Problem.Reporter == "promql/series" && r.Rule.Name() == "A" && r.Problem.Summary != "unable to run checks" {
+				for _, d := range r.Problem.Diagnostics {
+					if strings.Contains(d.Message, "`m") || strings.Contains(d.Message, "m{") {
+						cs.Violate("watch: reported-although-present-for-longer-than-any-cache-lifetime", fmt.Sprintf("iteration %d, %s after the metric appeared: %s: %s", it, fake.Sub(appeared), r.Problem.Summary, d.Message), input)
+						cs.Outcome = "violation"
+						return cs
+					}
+				}
+			}
+		}
+	}
+	cs.Outcome = fmt.Sprintf("watch judged=%d", min(judged, 1))
+	return cs
+}
+
 func main() {
 	explore.Main(&explore.Config{
 		Property: "C16", Level: "exploration",
-		Rule: "17 rule expressions (selectors on metrics m,n with =, !=, =~ matchers and an absent label value, inside sum(), rate(), binary operations, `or`, absent()) x presence patterns over the 6h look-back window for m{l=v}, m{l=w} (quick: always/never/first-half/second-half; thorough adds last-40-minutes-missing, intermittent, only-before-the-window) and n{l=v} x uptime metric with/without gaps x with/without a recording rule producing m x with/without a disable comment; the database is served over real HTTP by a Prometheus-compatible API backed by the vendored PromQL engine to the real FailoverGroup and promql/series check (3 slices per range probe); oracle (i) a selector that currently returns series draws no promql/series problem, (ii) a metric with no sample in the window that nothing provides or exempts draws a Bug",
+		Rule: "17 rule expressions (selectors on metrics m,n with =, !=, =~ matchers and an absent label value, inside sum(), rate(), binary operations, `or`, absent()) x presence patterns over the 6h look-back window for m{l=v}, m{l=w} (quick: always/never/first-half/second-half; thorough adds last-40-minutes-missing, intermittent, only-before-the-window) and n{l=v} x uptime metric with/without gaps x with/without a recording rule producing m x with/without a disable comment; the database is served over real HTTP by a Prometheus-compatible API backed by the vendored PromQL engine to the real FailoverGroup and promql/series check (3 slices per range probe); space watch: one long-lived client lints 5 expressions 14 times while the metric appears before iteration 1 or 2, the query cache running on a harness-owned clock (iterations every 1/4/7 minutes, collection every 2 minutes), clause (i) judged once the metric has been present for 10 minutes; oracle (i) a selector that currently returns series draws no promql/series problem, (ii) a metric with no sample in the window that nothing provides or exempts draws a Bug",
 		Assumptions: []string{
 			"patterns are hours wide and a case takes milliseconds, so wall-clock drift cannot flip a verdict; the window edge is given 10 minutes of slack",
 			"the engine-backed fake API (handler, JSON encoding, storage) is trusted",
 		},
-		Spaces:  []*explore.Space{{Name: "cases", Body: body, Setup: setup, Bound: func(string) int { return -1 }}},
+		Spaces: []*explore.Space{
+			{Name: "cases", Body: body, Setup: setup, Bound: func(string) int { return -1 }},
+			{Name: "watch", Body: watch, Setup: setup, Bound: func(string) int { return -1 }},
+		},
 		BudgetS: func(t string) int {
 			if t == "thorough" {
 				return 2400
